@@ -96,7 +96,8 @@ var BytesSliceFunc = function.New(&function.Spec{
 
 		end := offset + length
 
-		if end > len(*bufPtr) {
+		// (a length so large that the sum wraps around is also too long)
+		if length > len(*bufPtr)-offset {
 			return cty.NilVal, fmt.Errorf(
 				"offset %d + length %d is greater than total buffer length %d",
 				offset, length, len(*bufPtr),
